@@ -134,10 +134,18 @@ SIG_TRUST = [
     "collision_free() (no two byte strings with the same BLAKE3) is a HYPOTHESIS of the reconstruction / copy-bounds / greedy clauses, never an axiom",
 ]
 
+SINGLE_TRUST = [
+    "ghost file system of the single-file sync unit (units/lib/single_world.rs, ASSUMED): tokio::fs::{try_exists, read, write, rename} by contract over a map path -> bytes (write: on success exactly the given bytes at the path, no other path changes; rename: moves the content); nothing about atomicity or durability",
+    "R5 site shims whose body is the replaced expression: cursor_of(&v) for Cursor::new(&v) (a reader over exactly v), vec_eq for Vec<u8> == Vec<u8>, as_path for <P as AsRef<Path>>::as_ref; Path::with_extension without any postcondition",
+    "patch_to_vec: `sync.patch(Cursor::new(&basis), &delta, &mut output)` by CopiaSync::patch's PROVED contract with 'bytes written to the sink' read as 'bytes appended to the Vec' (ASSUMED: writing to &mut Vec<u8> appends); the restatement itself is checked against the proved contract by `patch_contract_restated`",
+    "Delta::bytes_matched / bytes_literal (filter_map + sum): by contract == cpy / lit of the op list",
+]
+
 PROPS["C01"] = dict(
     level="proof",
     units=[dict(template="units/delta.rs", slice=["*", "!RollingChecksum::roll", "!RollingChecksum::push", "!RollingChecksum::sum_*", "!RollingChecksum::len", "!RollingChecksum::is_empty", "!lemma_c17*", "!lemma_g_lit_identical"],
-                ignore_clauses={"::delta": [r"g_lit\("]})],
+                ignore_clauses={"::delta": [r"g_lit\("]}),
+           dict(template="units/singlesync.rs", slice=["AsyncCopiaSync::sync_files", "SyncBuilder::new", "SyncBuilder::block_size", "SyncBuilder::build", "CopiaSync::with_block_size", "patch_contract_restated"])],
     twins=[
         dict(name="signature_structure", repo_fn="src/signature.rs Signature::generate", quick=3, thorough=60,
              contract="Ok ==> one entry per block in order: BlockSignature::compute(j, block j), file_size; both the <=64KiB and the >64KiB (rayon) path, all 8 CLI block sizes (for C01 the VALUE of the weak hash is irrelevant: every producer must agree)"),
@@ -153,11 +161,13 @@ PROPS["C01"] = dict(
         "lemma_c01_roundtrip": "delta's postcondition establishes patch's success antecedent; patch's output clause gives exactly the source",
         "CopiaSync::signature": "== Signature::generate's contract (sig_of)",
         "lemma_sig_unique": "sig_of determines the signature: engine / sequential vs parallel path independence follows from every producer satisfying sig_of",
+        "AsyncCopiaSync::sync_files (single-file `sync`)": "under collision_free(): Ok ==> the destination path holds exactly the bytes the source path held at entry (all three branches: destination absent, identical, delta + patch + temp + rename), source_size is the source's length and bytes_matched + bytes_literal == source_size; every callee precondition (valid block size for CopiaSync::with_block_size's assert!, delta's window bound, patch's length bound) established for arbitrary file contents",
+        "SyncBuilder::{new, block_size, build}, CopiaSync::with_block_size": "the engine sync_files builds has the requested block size and checksum verification on; block_size's assert! is a caller obligation",
     },
-    trusted=COMMON_TRUST + IO_TRUST + SIG_TRUST,
+    trusted=COMMON_TRUST + IO_TRUST + SIG_TRUST + SINGLE_TRUST,
     assumptions=["block size <= 2^24 and basis < 2^48 bytes (library-level domain restriction; the CLI allows 512..65536)", "block index < 2^32"],
     not_decided=["AsyncCopiaSync::signature's read loop: assumed to satisfy sig_of, validated by the engines_agree twin (not yet under a loop invariant)",
-                 "CLI file chain (bincode files) and single-file `sync` (sync_files, tokio fs): validated by twins only",
+                 "CLI file chain (bincode files): validated by the cli_chain twin only; the wrapper run_sync_local_to_local around sync_files (argument plumbing, messages) is exercised by the twin's `copia sync SRC DST` cases only",
                  "engine-independence of the DELTA value: both engines satisfy the same contract (same greedy literal count and same reconstruction); equality of the op lists themselves is checked by the engines_agree twin only"],
 )
 
@@ -220,7 +230,7 @@ PROPS["C05"]["clauses"]["run_patch (CLI)"] = "Ok ==> BLAKE3(bytes written to the
 PROPS["C05"]["trusted"] = COMMON_TRUST + IO_TRUST + CLI_TRUST
 PROPS["C05"]["fallback_searches"].append("cli_run_patch")
 PROPS["C01"]["twins"].append(dict(name="cli_chain", repo_fn="src/bin/copia/main.rs", quick=1, thorough=1, needs_cli=True,
-                                  contract="signature -> delta -> patch chained through their files with the real binary reproduces the source"))
+                                  contract="signature -> delta -> patch chained through their files with the real binary reproduces the source (also for an empty basis, an empty source, one-byte files, exact block multiples); `copia sync SRC DST` leaves DST byte-identical to SRC for 10 shapes x 2 block sizes (destination absent, blocks swapped / repeated / reversed with no new bytes and equal length, one byte changed, a block removed, an insert, empty source, empty destination, identical)"))
 
 WORLD_TRUST = [
     "ghost file-system world (units/lib/world_model.rs, ASSUMED): rename is atomic and must be looked at to learn its result; copy / create+write are NON-atomic and allowed only onto reserved staging names (*.copia-tmp, *.tmp); bytes are durable only after sync_all; a staging file may be renamed into place only after it was flushed; sync_all changes no bytes",
